@@ -445,7 +445,7 @@ func (c *c04) stringsWorkload(thorough bool) {
 }
 
 func checkC04(run *mon.Run, rng *mon.Rand, thorough bool) {
-	run.Rule = "two real chains + a faithful executor model (acts only on parsed events): (a) for every tree size 1..N (48 quick; 400 + sampled sizes up to 600 thorough), both tree shapes, a mix of user and refund withdrawals recorded by the real L2 is committed, the period waited out, and EVERY leaf claimed (and re-claimed) on the real L1; (b) amount lattice {1,2,2^31,2^53,2^63-1,2^63,2^64-1,2^64,2^64+1,2^65,2^128,2^255-1} through three paths (deposit+user withdrawal, deposit+refund, accumulate+withdraw); (c) denoms with / : . _ - and 128 chars, 1/20/32-byte L1 recipients, hostile L2 recipient strings that become the refund's sender. Distinct non-trivial = (size, shape, position, amount class, source) finalized successfully + lattice cells"
+	run.Rule = "two real chains + a faithful executor model (acts only on parsed events): (a) for every tree size 1..N (48 quick; 400 + sampled sizes up to 600 thorough), both tree shapes, a mix of user and refund withdrawals recorded by the real L2 is committed, the period waited out, and EVERY leaf claimed (and re-claimed) on the real L1; (b) amount lattice {1,2,2^31,2^53,2^63-1,2^63,2^64-1,2^64,2^64+1,2^65,2^128,2^255-1} through three paths (deposit+user withdrawal, deposit+refund, accumulate+withdraw); (c) denoms with / : . _ - and 128 chars, 1/20/32-byte L1 recipients, hostile L2 recipient strings that become the refund's sender. Distinct non-trivial = (size, shape, position, amount class, source) finalized successfully + lattice cells Plus: withdrawals executed inside multi-message deposit hooks (accepted == announced, read from state), L1 module accounts as recipients, claims first simulated on discarded branches, shadow activity in a third of the tree workloads."
 	run.Assumptions = []string{"the published tree rule: sorted-pair SHA3 nodes over leaves in sequence order; both completion rules used by executors (pad-with-last, promote-odd) are exercised", "premise of the property: positive amount and valid L1 recipient"}
 	for _, cl := range []string{"C04.every_leaf_finalizes", "C04.paid_in_full", "C04.exactly_once", "C04.recorded_withdrawal_is_committable", "C04.amount_lattice"} {
 		run.Declare(cl, 30)
